@@ -32,42 +32,10 @@ def idxC (s : Bytes) (i : Nat) : PE UInt8 :=
 /-- `.error .panic`-freeness. -/
 def PE.noPanic {α} (x : PE α) : Prop := x ≠ .error .panic
 
-/-! ### UTF-8: width of the first rune as `utf8.DecodeRuneInString` / `for i := range s` see it.
-    (`splitWithEscapeCharacter` iterates with `for i := range str` and reads `str[i]`: it visits only
-    the FIRST byte of every rune, so continuation bytes of valid multi-byte runes are skipped.) -/
-
-def isCont (c : UInt8) : Bool := 0x80 ≤ c && c ≤ 0xBF
-
-/-- Width (1–4) of the first rune of a non-empty string; invalid encodings have width 1. -/
-def runeLen (s : Bytes) : Nat :=
-  match s with
-  | [] => 1
-  | c0 :: t =>
-    if c0 < 0x80 then 1
-    else if c0 < 0xC2 then 1
-    else if c0 ≤ 0xDF then
-      match t with
-      | c1 :: _ => if isCont c1 then 2 else 1
-      | _ => 1
-    else if c0 ≤ 0xEF then
-      match t with
-      | c1 :: c2 :: _ =>
-        let lo : UInt8 := if c0 == 0xE0 then 0xA0 else 0x80
-        let hi : UInt8 := if c0 == 0xED then 0x9F else 0xBF
-        if lo ≤ c1 && c1 ≤ hi && isCont c2 then 3 else 1
-      | _ => 1
-    else if c0 ≤ 0xF4 then
-      match t with
-      | c1 :: c2 :: c3 :: _ =>
-        let lo : UInt8 := if c0 == 0xF0 then 0x90 else 0x80
-        let hi : UInt8 := if c0 == 0xF4 then 0x8F else 0xBF
-        if lo ≤ c1 && c1 ≤ hi && isCont c2 && isCont c3 then 4 else 1
-      | _ => 1
-    else 1
-
 /-! ### splitWithEscapeCharacter -/
 
-/-- The loop `for i := range str { c := str[i]; … }` with the builder `sb`, the flag `escaped` and
+/-- The loop `for i := 0; i < len(str); i++ { c := str[i]; … }` (byte-wise since the D13 repair;
+    before it ranged by rune and dropped continuation bytes) with the builder `sb`, the flag `escaped` and
     the parts so far.  `fuel` bounds the number of iterations (`str.length` suffices). -/
 def splitEscLoop (str : Bytes) (sep esc : UInt8) (preserveAll : Bool) :
     (fuel : Nat) → (i : Nat) → (sb : Bytes) → (escaped : Bool) → (parts : List Bytes) →
@@ -76,7 +44,7 @@ def splitEscLoop (str : Bytes) (sep esc : UInt8) (preserveAll : Bool) :
   | fuel + 1, i, sb, escaped, parts =>
     if i ≥ str.length then pure (sb, parts) else do
       let c ← idxC str i
-      let next := i + runeLen (str.drop i)
+      let next := i + 1
       if c == esc then
         splitEscLoop str sep esc preserveAll fuel next sb true parts
       else if c == sep then
